@@ -486,7 +486,7 @@ def recursion_worker(case):
 
 def run(out):
     quick = out.tier == 'quick'
-    maxl, units = (3, 8) if quick else (4, 16)
+    maxl, units = (4, 16) if quick else (5, 32)   # cell sizes 1, 2, 4, 8, 16 (32): size ratios up to 16 (32)
     cells_open = dyadic_cells(maxl, 0, units)
     cells_glued = dyadic_cells(maxl, 2, units)  # each at most a quarter of the closed curve
     cases = []
